@@ -4,7 +4,7 @@ import Heathcliff.Proofs.GenScalingSpec
 import Heathcliff.Proofs.C07F
 import Heathcliff.Proofs.GenEvalCt
 import Heathcliff.Proofs.GenEvalCt3
-import Heathcliff.Proofs.GenDec11
+import Heathcliff.Proofs.GenDec12
 
 /- Property theorems only (statements verbatim; proofs are the helper lemmas of Heathcliff/Proofs). -/
 namespace HC.C07
@@ -177,5 +177,13 @@ theorem gen_dot_product_plan_eq : type_of% @HC.gd_dot_product_plan_eq := @HC.gd_
 theorem gen_dot_plan_witness : type_of% @HC.gd_dot_plan_witness := @HC.gd_dot_plan_witness
 theorem gen_dot_plan_witness2 : type_of% @HC.gd_dot_plan_witness2 := @HC.gd_dot_plan_witness2
 theorem gen_dot_plan_witness16 : type_of% @HC.gd_dot_plan_witness16 := @HC.gd_dot_plan_witness16
+
+/-- GENERATED `bfv_decrypt` / `ckks_decrypt` / `decrypt` (skeletons): refusals, order of the opaque steps, destination sizes, trimming, dispatch -/
+theorem gen_bfv_decrypt_eq : type_of% @HC.gd_bfv_decrypt_eq := @HC.gd_bfv_decrypt_eq
+theorem gen_ckks_decrypt_eq : type_of% @HC.gd_ckks_decrypt_eq := @HC.gd_ckks_decrypt_eq
+theorem gen_decrypt_dispatch_eq : type_of% @HC.gd_decrypt_dispatch_eq := @HC.gd_decrypt_dispatch_eq
+theorem gen_bfv_witness : type_of% @HC.gd_bfv_witness := @HC.gd_bfv_witness
+/-- `trimPlain` (Model/Scheme.lean) on lists is the `resize(max(sigWords, 1))` of the generated code (non-empty plaintexts) -/
+theorem trimPlain_toList : type_of% @HC.gd_trimPlain_toList := @HC.gd_trimPlain_toList
 
 end HC.C07
